@@ -84,7 +84,10 @@ Lemma protect_online_cache_cases cache data sid rkid server dom u p a :
   snd (protect_online c rnd_cek rnd_iv rnd_kek time_ns dns getkey cache data sid rkid server dom u p a)
   = match protect_stored cache sid rkid server dom u p a with
     | Ok cc2 => cc2
-    | Raise _ => match protect_looked_up cache sid rkid with Ok cc1 => cc1 | Raise _ => cache end
+    | Raise _ => match protect_looked_up cache sid rkid with
+                 | Ok cc1 => cc1
+                 | Raise _ => match get_target_sd sid with Ok sd => protection_lookup_cache c cache rkid sd time_ns | Raise _ => cache end
+                 end
     end.
 Proof.
   unfold protect_online, protect_stored, protect_looked_up.
